@@ -259,7 +259,7 @@ def deep_header_records(rng):
     for want, label, genuine in ((block.hash, 'genuine_header_pruned_below_update', True), (upd.hash, 'forged_wrong_block_hash', False)):
         for store in (0, 1):
             heap, roots, _ = ck.project([bp])
-            rec = {'op': 'header', 'label': label, 'genuine': int(genuine), 'cells': heap, 'root': roots[0], 'want': list(want)}
+            rec = {'op': 'header', 'label': label, 'genuine': int(genuine), 'cells': heap, 'root': roots[0], 'want': list(want), 'store': store}
             try:
                 r = check_block_header_proof(bp, want, bool(store))
                 rec['out'] = {'ok': 1}
@@ -330,7 +330,7 @@ def header_records(rng):
         for want, label, genuine in ((block.hash, 'genuine_header', True), (state.hash, 'forged_wrong_block_hash', False)):
             for store in (0, 1):
                 heap, roots, _ = ck.project([bp])
-                rec = {'op': 'header', 'label': label, 'genuine': int(genuine), 'cells': heap, 'root': roots[0], 'want': list(want)}
+                rec = {'op': 'header', 'label': label, 'genuine': int(genuine), 'cells': heap, 'root': roots[0], 'want': list(want), 'store': store}
                 try:
                     r = check_block_header_proof(bp, want, bool(store))
                     rec['out'] = {'ok': 1}
@@ -339,6 +339,36 @@ def header_records(rng):
                 except Exception as e:
                     rec['out'] = {'err': type(e).__name__}
                 out.append(rec)
+        # the children of the state update (level-1 pruned branches in every block) pruned AGAIN by the header proof: two stored
+        # hashes each (mask 3).  Genuine; and forged: the new-state branch keeps its level-1 hash (the only one the block hash covers)
+        # but carries another level-0 hash - the "state hash" a careless reader would take from it
+        if mask in (0, 3, 7):
+            o2, n2 = pruned(upd.refs[0], 2), pruned(upd.refs[1], 2)
+            y = bytearray(n2.begin_parse().load_bytes(len(n2.bits) // 8))
+            fake_state = begin_cell().store_uint(rng.getrandbits(64), 64).end_cell()
+            y[2:34] = fake_state.hash
+            n2f = Builder(type_=1).store_bytes(bytes(y)).end_cell()
+            for o_, n_, label, genuine in ((o2, n2, 'genuine_header_update_children_repruned', True),
+                                           (upd.refs[0], n2, 'genuine_header_new_state_repruned', True),
+                                           (o2, n2f, 'forged_pruned_level0_hash_below_update', False)):
+                u2 = Builder(type_=4).store_bytes(bytes(upd.begin_parse().load_bytes(len(upd.bits) // 8))).store_ref(o_).store_ref(n_).end_cell()
+                b2 = begin_cell().store_bits(block.bits)
+                for c in (ch[0], ch[1], u2, ch[3]):
+                    b2.store_ref(c)
+                b2 = b2.end_cell()
+                for store in (0, 1):
+                    if not genuine and not store:
+                        continue        # without the state hash nothing below the update is used: the property is silent here
+                    heap, roots, _ = ck.project([b2])
+                    rec = {'op': 'header', 'label': label, 'genuine': int(genuine), 'cells': heap, 'root': roots[0], 'want': list(block.hash), 'store': store}
+                    try:
+                        r = check_block_header_proof(b2, block.hash, bool(store))
+                        rec['out'] = {'ok': 1}
+                        if store:
+                            rec['out']['state'] = list(r)
+                    except Exception as e:
+                        rec['out'] = {'err': type(e).__name__}
+                    out.append(rec)
         # altered header data
         bad = begin_cell().store_bits(block.bits[:-1]).store_bit(1 - block.bits[-1])
         for c in ch:
@@ -355,9 +385,9 @@ def header_records(rng):
     return out
 
 
-def account_records(rng):
+def account_records(rng, n=None):
     out = []
-    n = rng.randint(1, 3)
+    n = n or rng.randint(1, 3)
     addrs = [Address((0, bytes(rng.getrandbits(8) for _ in range(32)))) for _ in range(n)]
     if n > 1 and rng.random() < 0.5:      # keys sharing a long prefix
         h0 = addrs[0].hash_part
@@ -394,6 +424,42 @@ def account_records(rng):
          blk, target, other_acc),
         ('forged_single_root', False, [roots[0]], blk, target, acc),
     ]
+    # (a) genuine: the block proof prunes the update's children again (two stored hashes)
+    def block_with_update(o_, n_):
+        u2 = Builder(type_=4).store_bytes(bytes(upd.begin_parse().load_bytes(len(upd.bits) // 8))).store_ref(o_).store_ref(n_).end_cell()
+        return (begin_cell().store_bits(block.bits).store_ref(pruned(kids[0])).store_ref(pruned(kids[1])).store_ref(u2)
+                .store_ref(pruned(kids[2])).end_cell())
+    o2, n2 = pruned(upd.refs[0], 2), pruned(upd.refs[1], 2)
+    cases.append(('genuine_account_update_children_repruned', True, [mproof(block_with_update(o2, n2)), roots[1]], blk, target, acc))
+    # (b) forged: ANOTHER state smuggled in through the level-0 slot of the re-pruned new-state branch (not covered by the block hash)
+    y = bytearray(n2.begin_parse().load_bytes(len(n2.bits) // 8))
+    y[2:34] = other_state.get_hash(0)
+    n2f = Builder(type_=1).store_bytes(bytes(y)).end_cell()
+    cases.append(('forged_state_through_uncommitted_level0_slot', False, [mproof(block_with_update(o2, n2f)), mproof(other_state_p)], blk, target, other_acc))
+    # (c) forged absence: the dictionary branch leading to an existing account is pruned away and "no such account" is claimed
+    if n > 1:
+        droot = accounts.refs[0]
+
+        def prune_towards(c, key_bits):
+            from pytoniq_core.boc.hashmap.parse import deserialize_hml
+            cs = c.begin_parse()
+            ln, _ = deserialize_hml(cs, len(key_bits))
+            rest = key_bits[ln:]
+            if not rest or len(c.refs) < 2:
+                return pruned(c)
+            side = rest[0]
+            b = Builder().store_bits(c.bits)
+            for j, r in enumerate(c.refs):
+                b.store_ref(pruned(r) if j == side else r)
+            return b.end_cell()
+        kb = [int(x) for x in bin(int.from_bytes(target.hash_part, 'big'))[2:].rjust(256, '0')]
+        acc_pruned = begin_cell().store_bits(accounts.bits).store_ref(prune_towards(droot, kb)).end_cell()
+        state_pp = begin_cell().store_bits(state.bits).store_ref(pruned(outq)).store_ref(acc_pruned).store_ref(pruned(third)).end_cell()
+        none_cell = begin_cell().store_bit(0).end_cell()
+        cases.append(('forged_absence_by_pruning_the_path', False, [roots[0], mproof(state_pp)], blk, target, none_cell))
+        cases.append(('forged_absence_by_pruning_the_path_empty_cell', False, [roots[0], mproof(state_pp)], blk, target, Cell.empty()))
+    # (an address that is really absent from a fully revealed dictionary, claimed as account_none, is not generated: the property
+    # does not say whether proofs of absence are supported)
     if target.hash_part in EXTRA:
         cases.append(('forged_extra_currency_dict_as_account', False, roots, blk, target, EXTRA[target.hash_part]))
     pp = partially_pruned(acc, rng)
@@ -448,8 +514,8 @@ def generate(tier, seed, ctx):
         out += header_records(rng)
     for _ in range(3 if q else 60):
         out += deep_header_records(rng)
-    for _ in range(5 if q else 200):
-        out += account_records(rng)
+    for k in range(5 if q else 200):
+        out += account_records(rng, n=(2, 3, None, None, 1)[k % 5])
     return out
 
 
